@@ -131,6 +131,9 @@ struct C19 : vr::Driver {
     L("inc/reset/read", {{ia, ia}, {rs, ga}, {ib, ga}});
     L("dec/inc/reset", {{dec, ga}, {ia, ib}, {rs}});
     L("set/set/read", {{sa, ga}, {{'s', "a", 9}, ga}, {ga}});
+    // a key that does not exist yet (first increment creates it)
+    L("first increments of a new key", {{{'i', "c", 1}}, {{'i', "c", 2}, ga}, {{'i', "c", 4}}});
+    L("new key: inc vs set vs reset", {{{'i', "c", 1}, ga}, {{'s', "c", 5}}, {rs, {'i', "c", 1}}});
     if (th) {
       L("three incrementers", {{ia, ia}, {ia, ia}, {ia, ga}});
       L("reset vs new key", {{ib, ga}, {rs, {'i', "c", 4}}, {ga, ga}});
